@@ -68,6 +68,11 @@ def gen_case(rnd, idx=None):
         size = min(size, 49152 - org)
     org = min(org, 65536 - size)
     data = [rnd.randrange(256) for _ in range(size)]
+    if rnd.random() < 0.2:
+        # run-length sensitive contents (the snapshot tap2sna writes is compressed): 0xED-rich, runs, 0xED runs at the very end
+        data = [rnd.choice((0xED, 0xED, 0x00, 0xFF, rnd.randrange(256))) for _ in range(size)]
+        k = rnd.randrange(1, 6)
+        data[-k:] = [0xED] * min(k, size)
     start = org + rnd.randrange(size) if rnd.random() < 0.6 else rnd.choice((org, 32768, 50000))
     if low:
         start = org if rnd.random() < 0.7 else org + rnd.randrange(size)
@@ -175,7 +180,11 @@ def run_case(wd, idx, g, rnd, sim_opts=(), keep_tape=False):
     if rc or not os.path.isfile(snapf):
         c['loaderr'] = 'tap2sna rc=%s %s %s' % (rc, e[-300:], out[-200:])
         return c
-    s, ram = snapshot_state(snapf)
+    try:
+        s, ram = snapshot_state(snapf)
+    except Exception as e:          # a snapshot that cannot be read back is an observation, not a harness failure
+        c['loaderr'] = 'snapshot written by tap2sna cannot be read: %s: %s' % (type(e).__name__, e)
+        return c
     c['pc'], c['sp'], c['o7ffd'] = int(s.pc), int(s.sp), int(s.out7ffd) & 0x3F
     c['regs'] = [int(x) for x in (s.a, s.f, s.bc, s.de, s.hl, s.ix, s.iy, s.i, s.r, s.a2, s.f2, s.bc2, s.de2, s.hl2, s.iff1, s.im, s.border)]
     c['tstates'] = int(s.tstates)
